@@ -29,6 +29,7 @@ func c17(c *Ctx) {
 	c17Decoder(c)
 	c17IPP(c)
 	c17NoListAliasing(c)
+	decoderErrorSticky(c, "decoder-error-sticky")
 }
 
 func c17Decoder(c *Ctx) {
